@@ -27,6 +27,12 @@ theorem C03_return_in_range (ord : List Pred → List Pred) (hord : OrdOK ord) (
   rw [← sat_build] at hv ⊢
   exact C03_sound ord hord _ _ h v hv
 
+/-- the model's fuel is not an approximation: any fuel above the weight bound gives the same answer, so `isSuperPred` is the
+    value of the (fuel-free) Rust recursion whenever the transcription is faithful -/
+theorem C03_fuel_stable (cfg : Cfg) (hord : OrdOK cfg.ord) (n : Nat) (P Q : Pred) (hn : P.weight + Q.weight < n) :
+    isSuper cfg n P Q = isSuperPred cfg P Q :=
+  isSuper_fuel_stable cfg hord n _ P Q hn (by omega)
+
 /-- every iteration order enumerated by the correspondence driver satisfies the hypothesis of `C03_sound` -/
 theorem C03_driver_orders_ok (k : Nat) : OrdOK (ordK k) := ordK_ok k
 
